@@ -21,9 +21,13 @@ CLAIM = dict(
           "non-termination into a replay. Search: all shipped tables x corpus inputs in both directions, plus generated "
           "tables biased towards multipass rules that insert without consuming, replace a string by itself, look back, or "
           "use zero-width brackets in every stage and both directions; hyphenation on the shipped dictionaries."),
-    note=("Theorem covers the four guarded loops; the two main-pass loops, the emphasis resolver, pattern.c and inSequence are "
-          "tick-monitored only (bound checked per run, not proved). Known finding F2 (backward main pass, zero-width context "
-          "rule) is listed in known_findings.json."),
+    note=("Layer A theorem covers the four guarded loops for ANY actions satisfying S2. Layer B: the stage models never reach their "
+          "bound (fwdStage_total, backStage_total); the main-pass models terminate inside their fuel - forward F0 (FwdTerm.loop_fuel, "
+          "compile_translate_fuel: every iteration that does not end the loop consumes a character), backward B0 (BackTerm, no hypothesis), "
+          "forward with context rules (FwdCTerm.translateC_no_fuel, measure 2(n-pos)+[posIncremented]); these models are tied to the code "
+          "per stage (MFWD/MBWD/MPASS) and per whole call (MCALL). Outside the fragments the two main-pass loops, the emphasis resolver, "
+          "pattern.c and inSequence are tick-monitored only (bound checked per run, not proved). Known finding F2 (backward main pass, "
+          "zero-width context rule: the backward model with context rules exhausts its bound exactly there) is listed in known_findings.json."),
     technique="Lean 4 proof (measure-based loop bound for arbitrary monotone actions) + H2 tick records checked against the contract + tick-budget search",
     design="DESIGN.md §7 C03")
 
